@@ -4,6 +4,7 @@ CONSTANTS
   MaxLen = 3
   HistFmts = {"standard", "canonical"}
   PrintFmts = {"standard", "historical", "canonical"}
+  ObsSeq <- ObsAllFmts
 INVARIANT HistRoundTrip
 INVARIANT HistIndependent
 INVARIANT HistWellFormed
